@@ -20,19 +20,22 @@ def job_fn(job):
         c = tv.compile_template(ct, vectorize=job['vectorize'], step_size=float(DT), solver=job['solver'], **ckw)
     except tv.CompileError as e:
         return dict(status='compile-raises', error=str(e))
-    plugin = tvdelay.ChainPlugin()
+    # (a delay of at most one step is neglected - the edge reads its source directly -, also when it carries a spread)
+    plugin = tvdelay.ChainPlugin(order_of=lambda e: 0 if F(e.delay) <= DT else round((F(e.delay) / F(e.spread)) ** 2))
     if job.get('dde_approx'):
         # every plain delay becomes a chain of dde_approx stages of rate dde_approx/d
         n_ = job['dde_approx']
-        plugin = tvdelay.ChainPlugin(order_of=lambda e: n_)
+        # (an edge that also carries a spread takes the larger of the two orders; a delay of at most one step is neglected)
+        plugin = tvdelay.ChainPlugin(order_of=lambda e: 0 if F(e.delay) <= DT else
+                                     max(n_, round((F(e.delay) / F(e.spread)) ** 2) if e.spread else 0))
         res = tvspec.validate(spec, c, tally, vectorized=job['vectorize'], plugin=plugin,
                               t_sym=(3 if job['solver'] == 'euler' else None))
         return dict(status='ok', res=res, tally=tally.as_dict(), src=c.src, keys=list(c.keys),
                     smap={k: str(v) for k, v in c.smap.items()})
     if job['solver'] == 'euler' and any(e.delay is not None and e.spread is None for e in spec.edges):
-        plugin = tvdelay.Composite(tvdelay.ChainPlugin(), tvdelay.RingBufferPlugin(DT))
+        plugin = tvdelay.Composite(plugin, tvdelay.RingBufferPlugin(DT))
     elif any(e.delay is not None and e.spread is None for e in spec.edges):
-        plugin = tvdelay.Composite(tvdelay.ChainPlugin(), tvdelay.HistPlugin(DT, True))
+        plugin = tvdelay.Composite(plugin, tvdelay.HistPlugin(DT, True))
     from .. import symx
     t_sym = 3 if job['solver'] == 'euler' else (symx.real('t') if isinstance(plugin, tvdelay.Composite) else None)
     res = tvspec.validate(spec, c, tally, vectorized=job['vectorize'], plugin=plugin, t_sym=t_sym)
@@ -71,6 +74,7 @@ def run(tier='quick', seed=0, only=None, verbose=False):
     dd = [p for p in families.fam_discrete_delays_fixed() if p[0] in ('F9x:two-delays-one-source', 'F9x:ring',
                                                                                 'F9x:two-delays-one-target', 'F9x:parallel-delayed',
                                                                                 'F9x:parallel-delayed-scalar-source')]
+    dd += [p for p in families.fam_gamma_fixed() if p[0] == 'F11x:neglected-delay-with-spread']
     for k, s in dd:
         for n_ in ((2,) if tier == 'quick' else (1, 2, 3, 5)):
             for v in (True, False):
